@@ -150,9 +150,9 @@ func (s *scriptServer) runInterop(cconf *CConf, ident int) *interopCase {
 	_ = ct.Close()
 	// the server-side transport belongs to the Server, which closes it itself: closing it from here as well would
 	// race with that (Transport.Close is not meant to be called from two goroutines)
-	waitUntil(2*time.Second*slack, func() bool { return servingGoroutines() == 0 })
 	pair.ST = nil
-	cleanup()
+	cleanup() // (the listener the pair came from goes too)
+	waitUntil(time.Second*slack, func() bool { return servingGoroutines() == 0 })
 	return c
 }
 
